@@ -77,6 +77,68 @@ fn gen_inter(r: &mut Rng, out: &mut Vec<u8>) {
     }
 }
 
+/// deterministic boundary family: CSI and DCS with 30..34 separators (the 32-parameter limit), ';' or ':', the last
+/// parameter empty or not, directly followed by the final byte or by an intermediate; OSC with 14..17 separators; 1..4
+/// intermediates.  `seed` only picks which half is emitted so that several shards cover the family between them.
+pub fn limit_family(seed: u64) -> Vec<u8> {
+    let mut out = Vec::new();
+    let mut k = 0u64;
+    for intro in [&b"\x1b["[..], &b"\x1bP"[..]] {
+        for n in 30..=34usize {
+            for sep in [b';', b':'] {
+                for last in [&b""[..], &b"7"[..]] {
+                    for inter in [&b""[..], &b" "[..]] {
+                        k += 1;
+                        if k % 2 != seed % 2 {
+                            continue;
+                        }
+                        out.extend_from_slice(intro);
+                        for i in 0..n {
+                            out.push(b'1' + (i % 9) as u8);
+                            out.push(sep);
+                        }
+                        out.extend_from_slice(last);
+                        out.extend_from_slice(inter);
+                        out.push(b'q');
+                        if intro[1] == b'P' {
+                            out.extend_from_slice(b"data\x1b\\");
+                        }
+                        out.push(b'.');
+                    }
+                }
+            }
+        }
+    }
+    for n in 14..=17usize {
+        for end in [&b"\x07"[..], &b"\x1b\\"[..], &b"\x18"[..]] {
+            out.extend_from_slice(b"\x1b]");
+            for i in 0..n {
+                out.push(b'a' + (i % 26) as u8);
+                out.push(b';');
+            }
+            if n % 2 == 0 {
+                out.push(b'z');
+            }
+            out.extend_from_slice(end);
+            out.push(b'.');
+        }
+    }
+    for n in 1..=4usize {
+        for intro in [&b"\x1b"[..], &b"\x1b["[..], &b"\x1bP"[..]] {
+            out.extend_from_slice(intro);
+            for i in 0..n {
+                out.push(b' ' + (i % 16) as u8);
+            }
+            out.push(b'q');
+            if intro.len() == 2 && intro[1] == b'P' {
+                out.extend_from_slice(b"\x1b\\");
+            }
+            out.push(b'.');
+        }
+    }
+    out
+}
+
 pub fn gen_csi(r: &mut Rng, out: &mut Vec<u8>) {
     out.extend_from_slice(b"\x1b[");
     if r.chance(1, 6) {
